@@ -89,6 +89,7 @@ type run struct {
 	maxOut      int
 	clientCut   bool
 	originSeen  []int
+	originHeads []int // requests whose head reached the origin
 	originFault bool
 	originConn  bool
 	checkedReq  int
@@ -451,7 +452,20 @@ func (r *run) client() {
 				return
 			}
 			if rq.expect100 {
-				s.WaitFor("100 Continue", time.Second, func() bool { return r.got100[i] || r.readerDone })
+				// A patient client: when the origin is going to answer the Expect with an interim 100
+				// (it does so as soon as it has the request head) the interim response must come back
+				// while the request is still pending; a client that waits for it must not starve.
+				strict := !p.faulty && len(rq.resp.interims) > 0 && rq.resp.interims[0].status == 100 && rq.resp.fault == 0 && rq.kind == 0 && s.GenChance(128)
+				wait := time.Second
+				if strict {
+					wait = 2 * time.Minute
+					s.Probe("c16.req.expect100-patient")
+				}
+				s.WaitFor("100 Continue", wait, func() bool { return r.got100[i] || r.readerDone })
+				if strict && !r.got100[i] && !r.readerDone && !s.Failed() && r.reachedOrigin(i) {
+					r.fail("c16.response-lost{interim,expect-100}", "request #%d (Expect: 100-continue) reached the origin, which answered 100 Continue at once, but the interim response did not come back within %v while the client was holding the body back", i, wait)
+					return
+				}
 			}
 			if !r.send(c, body, &sent, min(p.fragStyle, 1)*2) {
 				return
@@ -970,6 +984,7 @@ func (r *run) origin(ln *simnet.TCPListener) {
 		}
 		next = idx + 1
 		s.Logf("origin: head of request #%d %s", idx, m.start)
+		r.originHeads = append(r.originHeads, idx)
 		if !r.checkRequestHead(rq, m) {
 			return
 		}
@@ -1109,4 +1124,14 @@ func (r *run) finalChecks() {
 	if (r.checkedReq > 0 && r.checkedResp > 0) || r.refusals > 0 {
 		s.SetNontrivial()
 	}
+}
+
+// reachedOrigin reports whether the head of request i arrived at the origin.
+func (r *run) reachedOrigin(i int) bool {
+	for _, x := range r.originHeads {
+		if x == i {
+			return true
+		}
+	}
+	return false
 }
